@@ -51,6 +51,29 @@ func c20(c *Ctx) {
 		}
 		return callee, "", false
 	}
+	// the listings that fill the index tolerate at most "the kind is not served" (NotFound): any other
+	// failure of a listing, taken for an empty list, makes the run install a second copy
+	if run != nil {
+		for _, l := range calls(run, clientList) {
+			ev := cfgx.ErrEvents(l)
+			if ev == nil {
+				continue
+			}
+			var wide []string
+			for _, f := range ev.Filtered {
+				if f != "IgnoreNotFound" && f != "Ignore(IsNotFound)" {
+					wide = append(wide, f)
+				}
+			}
+			for _, pr := range ev.Preds {
+				if !strings.HasSuffix(pr, "IsNotFound") {
+					wide = append(wide, pr)
+				}
+			}
+			c.R.Check(len(wide) == 0 && len(ev.Fail) > 0, load.FuncName(run)+": "+site(l)+" tolerates NotFound only", c.pos(l.Pos()),
+				"a failed listing of installed packages ends the run unless the kind is not served", "the listing's failure is tolerated beyond NotFound ("+strings.Join(wide, ", ")+") or never tested: an unreadable list is taken for an empty one and installed packages are installed again")
+		}
+	}
 	var storeKeyFn, storeOpt string
 	if run != nil {
 		n := 0
